@@ -1,4 +1,5 @@
 import NumbatModel.Lemmas.QtyCanon
+import NumbatModel.Lemmas.QtyProg
 set_option linter.unusedSectionVars false
 /-!
 # C01 — accepted programs never go wrong dimensionally at run time
@@ -188,5 +189,559 @@ theorem no_incompatible_units (tbl : Table α) (hc : ConvComplete tbl) (e : QExp
   rcases soundness_partial tbl hc e d ht with ⟨q, hq, _⟩ | he
   · rw [hq]; simp
   · rw [he]; simp
+
+/-! ## The program fragment: variables, conversions, comparisons, boolean logic, conditionals, functions, `let`/`fn` sequences -/
+
+theorem binQ_ok {x y : Except PErr (PVal α)} {f : Quantity α → Quantity α → Except PErr (PVal α)} {v : PVal α}
+    (h : binQ x y f = .ok v) : ∃ a b, x = .ok (.q a) ∧ y = .ok (.q b) ∧ f a b = .ok v := by
+  unfold binQ at h
+  split at h <;> first | exact ⟨_, _, rfl, rfl, h⟩ | cases h
+
+theorem pos_div' (a b : α) (ha : Pos a) (hb : Pos b) : Pos (a / b) := by
+  have h1 := rpow_add b 1 (-1) hb
+  have h2 := rpow_zero b hb
+  have h3 := rpow_one b hb
+  have h4 : (1 : Rat) + -1 = 0 := by grind
+  rw [h4, h2, h3] at h1
+  have hne := pos_ne_zero b hb
+  have : a / b = a * rpow b (-1) := by grind
+  rw [this]
+  exact pos_mul _ _ ha (pos_rpow b (-1) hb)
+
+/-- the value of a unit expression is positive (it is a product of powers of ones), in particular not a zero -/
+theorem unitExpr_pos (tbl : Table α) (fns : List (FnDef α)) (glob : List (PVal α)) : ∀ (t : PExpr α),
+    t.isUnitExpr = true → ∀ fuel loc y, evalP tbl fns glob fuel loc t = .ok (.q y) → Pos y.value := by
+  intro t
+  induction t with
+  | unit f =>
+    intro _ fuel loc y h
+    cases fuel with
+    | zero => simp [evalP] at h
+    | succ fuel =>
+      simp only [evalP] at h
+      injection h with h; injection h with h; subst h
+      show Pos (one : α)
+      rw [one_eq]; exact pos_one
+  | mul a b iha ihb =>
+    intro hu fuel loc y h
+    simp only [PExpr.isUnitExpr, Bool.and_eq_true] at hu
+    cases fuel with
+    | zero => simp [evalP] at h
+    | succ fuel =>
+      simp only [evalP] at h
+      obtain ⟨x, z, hx, hz, hf⟩ := binQ_ok h
+      injection hf with hf; injection hf with hf; subst hf
+      show Pos (mul x.value z.value)
+      rw [mul_eq]
+      exact pos_mul _ _ (iha hu.1 fuel loc x hx) (ihb hu.2 fuel loc z hz)
+  | div a b iha ihb =>
+    intro hu fuel loc y h
+    simp only [PExpr.isUnitExpr, Bool.and_eq_true] at hu
+    cases fuel with
+    | zero => simp [evalP] at h
+    | succ fuel =>
+      simp only [evalP] at h
+      obtain ⟨x, z, hx, hz, hf⟩ := binQ_ok h
+      have hzp := ihb hu.2 fuel loc z hz
+      have hz0 : z.isZero = false := by
+        cases hzz : z.isZero
+        · rfl
+        · exact absurd ((isZero_iff z).mp hzz) (pos_ne_zero _ hzp)
+      simp only [checkedDiv, hz0, liftQ] at hf
+      injection hf with hf; injection hf with hf; subst hf
+      show Pos (div x.value z.value)
+      rw [div_eq]
+      exact pos_div' _ _ (iha hu.1 fuel loc x hx) hzp
+  | pow a r iha =>
+    intro hu fuel loc y h
+    simp only [PExpr.isUnitExpr] at hu
+    cases fuel with
+    | zero => simp [evalP] at h
+    | succ fuel =>
+      simp only [evalP] at h
+      split at h
+      · rename_i x hx
+        have hxp := iha hu fuel loc x hx
+        have hx0 : x.isZero = false := by
+          cases hzz : x.isZero
+          · rfl
+          · exact absurd ((isZero_iff x).mp hzz) (pos_ne_zero _ hxp)
+        simp only [checkedPower, hx0, Bool.and_false, liftQ] at h
+        injection h with h; injection h with h; subst h
+        exact pos_rpow _ _ hxp
+      · cases h
+      · cases h
+  | num _ => intro hu; simp [PExpr.isUnitExpr] at hu
+  | var _ => intro hu; simp [PExpr.isUnitExpr] at hu
+  | loc _ => intro hu; simp [PExpr.isUnitExpr] at hu
+  | neg _ _ => intro hu; simp [PExpr.isUnitExpr] at hu
+  | add _ _ _ _ => intro hu; simp [PExpr.isUnitExpr] at hu
+  | sub _ _ _ _ => intro hu; simp [PExpr.isUnitExpr] at hu
+  | conv _ _ _ _ => intro hu; simp [PExpr.isUnitExpr] at hu
+  | cmp _ _ _ _ _ => intro hu; simp [PExpr.isUnitExpr] at hu
+  | eq _ _ _ _ => intro hu; simp [PExpr.isUnitExpr] at hu
+  | ne _ _ _ _ => intro hu; simp [PExpr.isUnitExpr] at hu
+  | and _ _ _ _ => intro hu; simp [PExpr.isUnitExpr] at hu
+  | or _ _ _ _ => intro hu; simp [PExpr.isUnitExpr] at hu
+  | not _ _ => intro hu; simp [PExpr.isUnitExpr] at hu
+  | blit _ => intro hu; simp [PExpr.isUnitExpr] at hu
+  | ite _ _ _ _ _ _ => intro hu; simp [PExpr.isUnitExpr] at hu
+  | call _ _ _ => intro hu; simp [PExpr.isUnitExpr] at hu
+  | noarg => intro hu; simp [PExpr.isUnitExpr] at hu
+  | arg _ _ _ _ => intro hu; simp [PExpr.isUnitExpr] at hu
+
+theorem vok_dim {tbl : Table α} {v : PVal α} {d : DimV} (h : VOK tbl v (.dim d)) : ∃ x, v = .q x ∧ ValOK tbl x d := by
+  cases v with
+  | q x => exact ⟨x, rfl, h⟩
+  | b _ => simp [VOK] at h
+
+theorem vok_bool {tbl : Table α} {v : PVal α} (h : VOK tbl v .bool) : ∃ x, v = .b x := by
+  cases v with
+  | q _ => simp [VOK] at h
+  | b x => exact ⟨x, rfl⟩
+
+/-- the failures a well-typed run may end in: a division by zero (a run-time error numbat reports), or the
+model's fuel ran out (a non-terminating recursion; not an outcome of the interpreter) -/
+def Bad {β : Type} (r : Except PErr β) : Prop := r = .error (.q .divZero) ∨ r = .error .outOfFuel
+
+/-- the outcome of evaluating a typed sub-expression, as the induction hypothesis states it -/
+def Sound (tbl : Table α) (r : Except PErr (PVal α)) (t : PTy) : Prop :=
+  (∃ v, r = .ok v ∧ VOK tbl v t) ∨ Bad r
+
+def SoundArgs (tbl : Table α) (r : Except PErr (List (PVal α))) (ts : List PTy) : Prop :=
+  (∃ vs, r = .ok vs ∧ EnvOK tbl vs ts) ∨ Bad r
+
+theorem binQ_bad_left {ea eb : Except PErr (PVal α)} (f : Quantity α → Quantity α → Except PErr (PVal α))
+    (h : Bad ea) : Bad (binQ ea eb f) := by
+  rcases h with h | h <;> (rw [h]; unfold binQ Bad; simp)
+
+theorem binQ_bad_right {x : Quantity α} {eb : Except PErr (PVal α)}
+    (f : Quantity α → Quantity α → Except PErr (PVal α)) (h : Bad eb) : Bad (binQ (.ok (.q x)) eb f) := by
+  rcases h with h | h <;> (rw [h]; unfold binQ Bad; simp)
+
+theorem binQ_cases (tbl : Table α) {ea eb : Except PErr (PVal α)} {d₁ d₂ : DimV}
+    (f : Quantity α → Quantity α → Except PErr (PVal α))
+    (ha : Sound tbl ea (.dim d₁)) (hb : Sound tbl eb (.dim d₂)) :
+    (∃ x y, ValOK tbl x d₁ ∧ ValOK tbl y d₂ ∧ ea = .ok (.q x) ∧ eb = .ok (.q y) ∧ binQ ea eb f = f x y) ∨
+      Bad (binQ ea eb f) := by
+  rcases ha with ⟨va, hea, hva⟩ | hea
+  · obtain ⟨x, hx, hvx⟩ := vok_dim hva
+    subst hx
+    rcases hb with ⟨vb, heb, hvb⟩ | heb
+    · obtain ⟨y, hy, hvy⟩ := vok_dim hvb
+      subst hy
+      left; exact ⟨x, y, hvx, hvy, hea, heb, by rw [hea, heb]; rfl⟩
+    · right; rw [hea]; exact binQ_bad_right f heb
+  · right; exact binQ_bad_left f hea
+
+theorem binB_cases (tbl : Table α) {ea eb : Except PErr (PVal α)} (f : Bool → Bool → Bool)
+    (ha : Sound tbl ea .bool) (hb : Sound tbl eb .bool) : Sound tbl (binB ea eb f) .bool := by
+  rcases ha with ⟨va, hea, hva⟩ | hea
+  · obtain ⟨x, hx⟩ := vok_bool hva
+    subst hx
+    rcases hb with ⟨vb, heb, hvb⟩ | heb
+    · obtain ⟨y, hy⟩ := vok_bool hvb
+      subst hy
+      left; exact ⟨.b (f x y), by rw [hea, heb]; rfl, trivial⟩
+    · right; rcases heb with h | h <;> (rw [hea, h]; unfold binB Bad; simp)
+  · right; rcases hea with h | h <;> (rw [h]; unfold binB Bad; simp)
+
+theorem convertTo_unit' (tbl : Table α) (q q' : Quantity α) (U : Unit)
+    (h : convertTo tbl q U = .ok q') : q'.unit = U := by
+  unfold convertTo at h
+  split at h
+  · cases h; rfl
+  · simp only at h
+    split at h
+    · cases h; rfl
+    · cases h
+
+theorem convertTo_zero_ok (tbl : Table α) (q : Quantity α) (U : Unit) (h : q.isZero = true) :
+    convertTo tbl q U = .ok ⟨q.value, U, true⟩ := by
+  unfold convertTo; simp [h]
+
+/-- converting a value that agrees with `d` into a unit of dimension `d` succeeds -/
+theorem convert_ok_of_valOK (tbl : Table α) (hc : ConvComplete tbl) (x : Quantity α) (U : Unit) (d : DimV)
+    (hx : ValOK tbl x d) (hU : ∀ b, unitVec tbl U b = d b) : ∃ r, convertTo tbl x U = .ok r ∧ r.unit = U := by
+  rcases hx with hz | hv
+  · exact ⟨_, convertTo_zero_ok tbl x U hz, rfl⟩
+  · obtain ⟨r, hr⟩ := hc x U (fun b => by rw [hv, hU])
+    exact ⟨r, hr, convertTo_unit' tbl x r U hr⟩
+
+/-- an ordering comparison of two values of the same static dimension never reports incompatible units -/
+theorem vmCompare_ok (tbl : Table α) (hc : ConvComplete tbl) (op : CmpOp) (x y : Quantity α) (d : DimV)
+    (hx : ValOK tbl x d) (hy : ValOK tbl y d) : ∃ r, vmCompare tbl op x y = .ok r := by
+  have hq : qcmp tbl x y ≠ .incompatible := by
+    unfold qcmp
+    simp only [isNaN_false, Bool.or_self, Bool.false_eq_true, if_false]
+    split
+    · rename_i hz
+      rw [convertTo_zero_ok tbl x y.unit hz]
+      simp only
+      unfold cmpValues
+      split <;> (try split) <;> (try split) <;> simp
+    · rename_i hz
+      have hxv : ∀ b, unitVec tbl x.unit b = d b := by
+        rcases hx with h | h
+        · exact absurd h hz
+        · exact h
+      obtain ⟨r, hr, _⟩ := convert_ok_of_valOK tbl hc y x.unit d hy hxv
+      rw [hr]
+      simp only
+      unfold cmpValues
+      split <;> (try split) <;> (try split) <;> simp
+  unfold vmCompare
+  cases hres : qcmp tbl x y with
+  | incompatible => exact absurd hres hq
+  | nan => exact ⟨_, rfl⟩
+  | lt => exact ⟨_, rfl⟩
+  | eq => exact ⟨_, rfl⟩
+  | gt => exact ⟨_, rfl⟩
+
+/-- every function of the session was checked against a context that is still valid: its body is typed, for
+its signature, under signatures and global types that the current ones include -/
+def FnsOK (tbl : Table α) (fns : List (FnDef α)) (S : List FnSig) (Γ : List PTy) : Prop :=
+  ∀ (f : Nat) (sig : FnSig), S[f]? = some sig → ∃ fd, fns[f]? = some fd ∧ fd.arity = sig.params.length ∧
+    sig.ret.isVal = true ∧ ∃ S₁ Γ₁, Incl S₁ S ∧ Incl Γ₁ Γ ∧ HasTy tbl S₁ Γ₁ sig.params fd.body sig.ret
+
+/-- **Soundness for expressions of the program fragment**, for every fuel: in a session whose globals agree
+with their types and whose functions were checked (`FnsOK`), an expression typed under included contexts
+evaluates to a value that agrees with its static type, or fails with a division by zero (or the fuel runs out) —
+never with a unit incompatibility and never with an operand of the wrong kind.  Second part: the same for the
+argument chain of a call. -/
+theorem expr_soundness (tbl : Table α) (hc : ConvComplete tbl) (fns : List (FnDef α)) (S : List FnSig)
+    (Γ : List PTy) (glob : List (PVal α)) (henv : EnvOK tbl glob Γ) (hfns : FnsOK tbl fns S Γ) :
+    ∀ fuel : Nat,
+      (∀ (S₀ : List FnSig) (Γ₀ L : List PTy) (loc : List (PVal α)) (e : PExpr α) (t : PTy),
+        Incl S₀ S → Incl Γ₀ Γ → EnvOK tbl loc L → HasTy tbl S₀ Γ₀ L e t → t.isVal = true →
+        Sound tbl (evalP tbl fns glob fuel loc e) t) ∧
+      (∀ (S₀ : List FnSig) (Γ₀ L : List PTy) (loc : List (PVal α)) (e : PExpr α) (ts : List PTy),
+        Incl S₀ S → Incl Γ₀ Γ → EnvOK tbl loc L → HasTy tbl S₀ Γ₀ L e (.args ts) →
+        SoundArgs tbl (evalArgs tbl fns glob fuel loc e) ts) := by
+  intro fuel
+  induction fuel with
+  | zero =>
+    constructor
+    · intro _ _ _ _ _ _ _ _ _ _ _; right; right; simp [evalP]
+    · intro _ _ _ _ _ _ _ _ _ _; right; right; simp [evalArgs]
+  | succ fuel ih =>
+    obtain ⟨ihE, ihA⟩ := ih
+    constructor
+    · intro S₀ Γ₀ L loc e t hS hΓ hloc ht hval
+      have IH : ∀ (e' : PExpr α) (t' : PTy), HasTy tbl S₀ Γ₀ L e' t' → t'.isVal = true →
+          Sound tbl (evalP tbl fns glob fuel loc e') t' :=
+        fun e' t' h' hv' => ihE S₀ Γ₀ L loc e' t' hS hΓ hloc h' hv'
+      cases ht with
+      | num v d h =>
+        left
+        refine ⟨.q ⟨v, [], true⟩, by simp only [evalP], ?_⟩
+        rcases h with h | h
+        · right; intro b; simp [unitVec, h b]
+        · left; exact h
+      | unit f => left; exact ⟨.q ⟨one, [f], true⟩, by simp only [evalP], Or.inr (fun _ => rfl)⟩
+      | var i _ h =>
+        obtain ⟨v, hv, hvok⟩ := envOK_get tbl glob Γ henv i t (hΓ i t h)
+        left; exact ⟨v, by simp only [evalP, hv], hvok⟩
+      | loc i _ h =>
+        obtain ⟨v, hv, hvok⟩ := envOK_get tbl loc L hloc i t h
+        left; exact ⟨v, by simp only [evalP, hv], hvok⟩
+      | @neg a d ha =>
+        simp only [evalP]
+        rcases IH a _ ha rfl with ⟨v, hv, hvok⟩ | he
+        · obtain ⟨x, hx, hvx⟩ := vok_dim hvok
+          subst hx
+          left
+          refine ⟨.q x.neg, by rw [hv], ?_⟩
+          rcases hvx with hz | hvx
+          · left
+            rw [isZero_iff] at *
+            simp only [Quantity.neg, neg_eq, hz]; grind
+          · right; exact hvx
+        · right; rcases he with h | h <;> (rw [h]; unfold Bad; simp)
+      | @add a b d ha hb =>
+        simp only [evalP]
+        rcases binQ_cases tbl _ (IH a _ ha rfl) (IH b _ hb rfl) with ⟨x, y, hvx, hvy, _, _, hf⟩ | he
+        · rw [hf]
+          obtain ⟨r, hr, hvr⟩ := addsub_ok tbl hc d x y hvx hvy NumOps.add y hvy qadd (by unfold qadd; rfl)
+          left; exact ⟨.q r, by simp only [hr, liftQ], hvr⟩
+        · right; exact he
+      | @sub a b d ha hb =>
+        simp only [evalP]
+        rcases binQ_cases tbl _ (IH a _ ha rfl) (IH b _ hb rfl) with ⟨x, y, hvx, hvy, _, _, hf⟩ | he
+        · rw [hf]
+          have hneg : ValOK tbl y.neg d := by
+            rcases hvy with hz | hv
+            · left
+              rw [isZero_iff] at *
+              simp only [Quantity.neg, neg_eq, hz]; grind
+            · right; exact hv
+          obtain ⟨r, hr, hvr⟩ := addsub_ok tbl hc d x y hvx hvy NumOps.sub y.neg hneg qsub (by unfold qsub; rfl)
+          left; exact ⟨.q r, by simp only [hr, liftQ], hvr⟩
+        · right; exact he
+      | @mul a b d₁ d₂ ha hb =>
+        simp only [evalP]
+        rcases binQ_cases tbl _ (IH a _ ha rfl) (IH b _ hb rfl) with ⟨x, y, hvx, hvy, _, _, hf⟩ | he
+        · rw [hf]
+          left
+          refine ⟨.q (qmul x y), rfl, ?_⟩
+          rcases hvx with hz | hvx
+          · left; exact isZero_mul_left x y hz
+          · rcases hvy with hz | hvy
+            · left; exact isZero_mul_right x y hz
+            · right; intro b
+              simp only [qmul, Unit.mul, unitVec_append, hvx, hvy]
+        · right; exact he
+      | @div a b d₁ d₂ ha hb =>
+        simp only [evalP]
+        rcases binQ_cases tbl _ (IH a _ ha rfl) (IH b _ hb rfl) with ⟨x, y, hvx, hvy, _, _, hf⟩ | he
+        · rw [hf]
+          simp only [checkedDiv]
+          by_cases hyz : y.isZero = true
+          · right; left; simp [hyz, liftQ]
+          · left
+            simp only [hyz, Bool.false_eq_true, if_false, liftQ]
+            refine ⟨.q (qdiv x y), rfl, ?_⟩
+            have hvy' : ∀ b, unitVec tbl y.unit b = d₂ b := by
+              rcases hvy with h | h
+              · exact absurd h hyz
+              · exact h
+            rcases hvx with hz | hvx
+            · left
+              rw [isZero_iff] at *
+              simp only [qdiv, div_eq, hz]; grind
+            · right; intro b
+              simp only [qdiv, Unit.div, Unit.invert, unitVec_append, unitVec_power, hvx, hvy']
+              grind
+        · right; exact he
+      | @pow a d r ha =>
+        simp only [evalP]
+        rcases IH a _ ha rfl with ⟨v, hv, hvok⟩ | he
+        · obtain ⟨x, hx, hvx⟩ := vok_dim hvok
+          subst hx
+          rw [hv]
+          simp only [checkedPower]
+          by_cases hc' : (decide (r < 0) && x.isZero) = true
+          · right; left; simp [hc', liftQ]
+          · left
+            simp only [hc', Bool.false_eq_true, if_false, liftQ]
+            refine ⟨_, rfl, ?_⟩
+            rcases hvx with hz | hvx
+            · have hr : ¬ r < 0 := by
+                intro hlt; apply hc'; simp [hlt, hz]
+              by_cases hr0 : r = 0
+              · right; intro b
+                simp only [unitVec_power, hr0]; grind
+              · left
+                have hpos : 0 < r := by grind
+                rw [isZero_iff] at *
+                simp only [hz]
+                exact rpow_zero_base r hpos
+            · right; intro b
+              simp only [unitVec_power, hvx]
+        · right; rcases he with h | h <;> (rw [h]; unfold Bad; simp)
+      | @conv a tt d ha hu htt =>
+        simp only [evalP]
+        rcases binQ_cases tbl _ (IH a _ ha rfl) (IH tt _ htt rfl) with ⟨x, y, hvx, hvy, _, hey, hf⟩ | he
+        · rw [hf]
+          have hyp := unitExpr_pos tbl fns glob tt hu fuel loc y hey
+          have hyv : ∀ b, unitVec tbl y.unit b = d b := by
+            rcases hvy with hz | hv
+            · exact absurd ((isZero_iff y).mp hz) (pos_ne_zero _ hyp)
+            · exact hv
+          obtain ⟨r, hr, hru⟩ := convert_ok_of_valOK tbl hc x y.unit d hvx hyv
+          left
+          refine ⟨.q { r with canSimplify := false }, by simp only [vmConvertTo, hr, liftQ], ?_⟩
+          right; intro b
+          show unitVec tbl r.unit b = d b
+          rw [hru]; exact hyv b
+        · right; exact he
+      | @cmp a b d op ha hb =>
+        simp only [evalP]
+        rcases binQ_cases tbl _ (IH a _ ha rfl) (IH b _ hb rfl) with ⟨x, y, hvx, hvy, _, _, hf⟩ | he
+        · rw [hf]
+          obtain ⟨r, hr⟩ := vmCompare_ok tbl hc op x y d hvx hvy
+          left; exact ⟨.b r, by simp only [hr, liftB], trivial⟩
+        · right; exact he
+      | @eq a b d ha hb =>
+        simp only [evalP]
+        rcases binQ_cases tbl _ (IH a _ ha rfl) (IH b _ hb rfl) with ⟨x, y, _, _, _, _, hf⟩ | he
+        · rw [hf]; left; exact ⟨_, rfl, trivial⟩
+        · right; exact he
+      | @ne a b d ha hb =>
+        simp only [evalP]
+        rcases binQ_cases tbl _ (IH a _ ha rfl) (IH b _ hb rfl) with ⟨x, y, _, _, _, _, hf⟩ | he
+        · rw [hf]; left; exact ⟨_, rfl, trivial⟩
+        · right; exact he
+      | @and a b ha hb => simp only [evalP]; exact binB_cases tbl _ (IH a _ ha rfl) (IH b _ hb rfl)
+      | @or a b ha hb => simp only [evalP]; exact binB_cases tbl _ (IH a _ ha rfl) (IH b _ hb rfl)
+      | @not a ha =>
+        simp only [evalP]
+        rcases IH a _ ha rfl with ⟨v, hv, hvok⟩ | he
+        · obtain ⟨x, hx⟩ := vok_bool hvok
+          subst hx
+          left; exact ⟨.b (!x), by rw [hv], trivial⟩
+        · right; rcases he with h | h <;> (rw [h]; unfold Bad; simp)
+      | blit v => left; exact ⟨.b v, by simp only [evalP], trivial⟩
+      | @ite c tt ee _ hty hcnd htt hee =>
+        simp only [evalP]
+        rcases IH c _ hcnd rfl with ⟨v, hv, hvok⟩ | he
+        · obtain ⟨x, hx⟩ := vok_bool hvok
+          subst hx
+          rw [hv]
+          cases x with
+          | true => exact IH tt _ htt hty
+          | false => exact IH ee _ hee hty
+        · right; rcases he with h | h <;> (rw [h]; unfold Bad; simp)
+      | @call f args sig hsig hargs =>
+        simp only [evalP]
+        rcases ihA S₀ Γ₀ L loc args sig.params hS hΓ hloc hargs with ⟨vs, hvs, hvsok⟩ | he
+        · rw [hvs]
+          obtain ⟨fd, hfd, har, hret, S₁, Γ₁, hS₁, hΓ₁, hbody⟩ := hfns f sig (hS f sig hsig)
+          have hlen : vs.length = fd.arity := by rw [har]; exact envOK_length tbl vs sig.params hvsok
+          simp only [hfd, hlen, if_true]
+          exact ihE S₁ Γ₁ sig.params vs fd.body sig.ret hS₁ hΓ₁ hvsok hbody hret
+        · right; rcases he with h | h <;> (rw [h]; unfold Bad; simp)
+      | noarg => simp [PTy.isVal] at hval
+      | arg _ _ _ => simp [PTy.isVal] at hval
+    · intro S₀ Γ₀ L loc e ts hS hΓ hloc ht
+      generalize hteq : PTy.args ts = t at ht
+      cases ht with
+      | noarg =>
+        injection hteq with hteq; subst hteq
+        left; exact ⟨[], by simp only [evalArgs], trivial⟩
+      | @arg a rest t' ts' hv ha hrest =>
+        injection hteq with hteq; subst hteq
+        simp only [evalArgs]
+        rcases ihE S₀ Γ₀ L loc a t' hS hΓ hloc ha hv with ⟨v, hv', hvok⟩ | he
+        · rw [hv']
+          rcases ihA S₀ Γ₀ L loc rest ts' hS hΓ hloc hrest with ⟨vs, hvs, hvsok⟩ | he
+          · rw [hvs]; left; exact ⟨v :: vs, rfl, ⟨hvok, hvsok⟩⟩
+          · right; rcases he with h | h <;> (rw [h]; unfold Bad; simp)
+        · right; rcases he with h | h <;> (rw [h]; unfold Bad; simp)
+      | var i _ h =>
+        -- a global of an `args` type cannot exist: no value agrees with it
+        subst hteq
+        obtain ⟨v, _, hvok⟩ := envOK_get tbl glob Γ henv i _ (hΓ i _ h)
+        cases v <;> simp [VOK] at hvok
+      | loc i _ h =>
+        subst hteq
+        obtain ⟨v, _, hvok⟩ := envOK_get tbl loc L hloc i _ h
+        cases v <;> simp [VOK] at hvok
+      | @ite c tt ee _ hty _ _ _ => subst hteq; simp [PTy.isVal] at hty
+      | @call f args sig hsig hargs =>
+        obtain ⟨fd, _, _, hret, _⟩ := hfns f sig (hS f sig hsig)
+        rw [← hteq] at hret
+        simp [PTy.isVal] at hret
+      | num _ _ _ => cases hteq
+      | unit _ => cases hteq
+      | neg _ => cases hteq
+      | add _ _ => cases hteq
+      | sub _ _ => cases hteq
+      | mul _ _ => cases hteq
+      | div _ _ => cases hteq
+      | pow _ _ => cases hteq
+      | conv _ _ _ => cases hteq
+      | cmp _ _ _ => cases hteq
+      | eq _ _ => cases hteq
+      | ne _ _ => cases hteq
+      | and _ _ => cases hteq
+      | or _ _ => cases hteq
+      | not _ => cases hteq
+      | blit _ => cases hteq
+
+/-- the invariant of a session of the fragment: globals agree with their types, functions were checked -/
+def StateOK (tbl : Table α) (st : PState α) (S : List FnSig) (Γ : List PTy) : Prop :=
+  EnvOK tbl st.glob Γ ∧ FnsOK tbl st.fns S Γ
+
+theorem fnsOK_grow_glob (tbl : Table α) {fns : List (FnDef α)} {S : List FnSig} {Γ : List PTy} (t : PTy)
+    (h : FnsOK tbl fns S Γ) : FnsOK tbl fns S (Γ ++ [t]) := by
+  intro f sig hs
+  obtain ⟨fd, hfd, har, hret, S₁, Γ₁, hS₁, hΓ₁, hb⟩ := h f sig hs
+  exact ⟨fd, hfd, har, hret, S₁, Γ₁, hS₁, hΓ₁.trans (Incl.append Γ [t]), hb⟩
+
+theorem fnsOK_add_fn (tbl : Table α) {fns : List (FnDef α)} {S : List FnSig} {Γ : List PTy} (d : FnDef α)
+    (sig : FnSig) (hlen : fns.length = S.length) (hret : sig.ret.isVal = true) (har : d.arity = sig.params.length)
+    (hb : HasTy tbl (S ++ [sig]) Γ sig.params d.body sig.ret) (h : FnsOK tbl fns S Γ) :
+    FnsOK tbl (fns ++ [d]) (S ++ [sig]) Γ := by
+  intro f sg hs
+  by_cases hf : f < S.length
+  · rw [List.getElem?_append_left hf] at hs
+    obtain ⟨fd, hfd, har', hret', S₁, Γ₁, hS₁, hΓ₁, hb'⟩ := h f sg hs
+    refine ⟨fd, ?_, har', hret', S₁, Γ₁, hS₁.trans (Incl.append S [sig]), hΓ₁, hb'⟩
+    rw [List.getElem?_append_left (by omega)]; exact hfd
+  · have hfe : f = S.length := by
+      rcases Nat.lt_or_ge f (S.length + 1) with h' | h'
+      · omega
+      · rw [List.getElem?_eq_none (by simp; omega)] at hs; cases hs
+    subst hfe
+    simp at hs; subst hs
+    refine ⟨d, ?_, har, hret, S ++ [sig], Γ, Incl.refl _, Incl.refl _, hb⟩
+    rw [← hlen]; simp
+
+/-- **Soundness for programs** (sequences of `let` and `fn` definitions), for every fuel: running a well-typed
+program in a session that satisfies the invariant either fails with a division by zero (or runs out of fuel), or
+ends in a session in which *every* global — the earlier ones and each newly defined one — agrees with its
+static type and every function is checked. -/
+theorem program_soundness (tbl : Table α) (hc : ConvComplete tbl) (fuel : Nat) (S S' : List FnSig)
+    (Γ Γ' : List PTy) (prog : List (PStmt α)) (hp : ProgOK tbl S Γ prog S' Γ') :
+    ∀ st : PState α, StateOK tbl st S Γ → st.fns.length = S.length →
+    (∃ st', runProg tbl fuel prog st = .ok st' ∧ StateOK tbl st' S' Γ') ∨ Bad (runProg tbl fuel prog st) := by
+  induction hp with
+  | nil S Γ => intro st hst _; left; exact ⟨st, rfl, hst⟩
+  | @letv S Γ e t rest S' Γ' hval hte _ ih =>
+    intro st hst hlen
+    obtain ⟨henv, hfns⟩ := hst
+    rcases (expr_soundness tbl hc st.fns S Γ st.glob henv hfns fuel).1 S Γ [] [] e t (Incl.refl _) (Incl.refl _)
+        trivial hte hval with ⟨v, hv, hvok⟩ | he
+    · simp only [runProg, hv]
+      exact ih { st with glob := st.glob ++ [v] }
+        ⟨envOK_snoc tbl st.glob Γ henv v t hvok, fnsOK_grow_glob tbl t hfns⟩ hlen
+    · right; rcases he with h | h <;> (simp only [runProg, h]; unfold Bad; simp)
+  | @fn S Γ d rest S' Γ' sig hret har hb _ ih =>
+    intro st hst hlen
+    obtain ⟨henv, hfns⟩ := hst
+    simp only [runProg]
+    exact ih { st with fns := st.fns ++ [d] } ⟨henv, fnsOK_add_fn tbl d sig hlen hret har hb hfns⟩ (by simp [hlen])
+
+/-- the same for the prelude's kind of table (distinct unit names), started from the empty session -/
+theorem program_soundness_closed (tbl : Table α) (hn : NamesDistinct tbl) (fuel : Nat) (S' : List FnSig)
+    (Γ' : List PTy) (prog : List (PStmt α)) (hp : ProgOK tbl [] [] prog S' Γ') :
+    (∃ st', runProg tbl fuel prog {} = .ok st' ∧ StateOK tbl st' S' Γ') ∨ Bad (runProg tbl fuel prog {}) :=
+  program_soundness tbl (convComplete tbl hn) fuel [] S' [] Γ' prog hp {}
+    ⟨trivial, fun f sig h => by simp at h⟩ rfl
+
+/-- corollary: a well-typed program never fails with a unit incompatibility and never gets stuck on an
+operand of the wrong kind -/
+theorem program_no_incompatible (tbl : Table α) (hc : ConvComplete tbl) (fuel : Nat) (S' : List FnSig)
+    (Γ' : List PTy) (prog : List (PStmt α)) (hp : ProgOK tbl [] [] prog S' Γ') :
+    runProg tbl fuel prog {} ≠ .error (.q .incompatible) ∧ runProg tbl fuel prog {} ≠ .error .stuck := by
+  rcases program_soundness tbl hc fuel [] S' [] Γ' prog hp {} ⟨trivial, fun f sig h => by simp at h⟩ rfl with
+    ⟨st', h, _⟩ | h | h
+  · rw [h]; exact ⟨by simp, by simp⟩
+  · rw [h]; exact ⟨by simp, by simp⟩
+  · rw [h]; exact ⟨by simp, by simp⟩
+
+/-- non-vacuity: a program with a variable, the polymorphic zero, a comparison, a conditional, a recursive
+function and a call is typed by `ProgOK` (over any table), so the hypotheses of `program_soundness` are
+satisfiable -/
+example (tbl : Table α) (v : α) :
+    ProgOK tbl [] []
+      [.letv (.num v), .letv (.add (.var 0) (.num zero)), .letv (.cmp .lt (.var 0) (.var 1)),
+       .letv (.ite (.var 2) (.var 0) (.var 1)),
+       .fn ⟨1, .ite (.cmp .le (.loc 0) (.var 0)) (.loc 0) (.call 0 (.arg (.mul (.loc 0) (.var 1)) .noarg))⟩,
+       .letv (.call 0 (.arg (.var 3) .noarg))]
+      [⟨[.dim (fun _ => 0)], .dim (fun _ => 0)⟩]
+      [.dim (fun _ => 0), .dim (fun _ => 0), .bool, .dim (fun _ => 0), .dim (fun _ => 0)] := by
+  refine .letv rfl (.num v _ (Or.inl fun _ => rfl)) (.letv rfl (.add (.var 0 _ rfl) (.num zero _ (Or.inl fun _ => rfl)))
+    (.letv rfl (.cmp .lt (.var 0 _ rfl) (.var 1 _ rfl)) (.letv rfl (.ite rfl (.var 2 _ rfl) (.var 0 _ rfl) (.var 1 _ rfl))
+      (.fn ⟨[.dim (fun _ => 0)], .dim (fun _ => 0)⟩ rfl rfl ?_ (.letv rfl ?_ (.nil _ _))))))
+  · refine .ite rfl (.cmp .le (.loc 0 _ rfl) (.var 0 _ rfl)) (.loc 0 _ rfl) ?_
+    refine .call ⟨[.dim (fun _ => 0)], .dim (fun _ => 0)⟩ rfl (.arg rfl ?_ .noarg)
+    have h := @HasTy.mul α _ tbl [⟨[.dim (fun _ => 0)], .dim (fun _ => 0)⟩]
+      [.dim (fun _ => 0), .dim (fun _ => 0), .bool, .dim (fun _ => 0)] [.dim (fun _ => 0)] (.loc 0) (.var 1)
+      (fun _ => 0) (fun _ => 0) (.loc 0 _ rfl) (.var 1 _ rfl)
+    have he : (fun x : Nat => (0 : Rat) + 0) = fun _ => 0 := by funext x; grind
+    rw [he] at h; exact h
+  · exact .call ⟨[.dim (fun _ => 0)], .dim (fun _ => 0)⟩ rfl (.arg rfl (.var 3 _ rfl) .noarg)
 
 end NumbatModel.Qty
